@@ -224,6 +224,9 @@ func (c *Chapter) XHTML(version int) []byte {
 	return []byte(sb.String())
 }
 
+// NoEncryptionMethod as EncEntry.Algorithm leaves the enc:EncryptionMethod element out.
+const NoEncryptionMethod = "(no EncryptionMethod element)"
+
 // EncEntry is one EncryptedData entry of META-INF/encryption.xml.
 type EncEntry struct {
 	Algorithm string // e.g. http://www.idpf.org/2008/embedding (font obfuscation), http://www.w3.org/2001/04/xmlenc#aes128-cbc
@@ -236,6 +239,10 @@ func EncryptionXML(entries []EncEntry) []byte {
 	sb.WriteString(`<?xml version="1.0" encoding="UTF-8"?>` + "\n")
 	sb.WriteString(`<encryption xmlns="urn:oasis:names:tc:opendocument:xmlns:container" xmlns:enc="http://www.w3.org/2001/04/xmlenc#">`)
 	for _, e := range entries {
+		if e.Algorithm == NoEncryptionMethod { // enc:EncryptionMethod is optional (XML-ENC 3.2: the algorithm is then known out of band)
+			fmt.Fprintf(&sb, `<enc:EncryptedData><enc:CipherData><enc:CipherReference URI="%s"/></enc:CipherData></enc:EncryptedData>`, esc(e.URI))
+			continue
+		}
 		fmt.Fprintf(&sb, `<enc:EncryptedData><enc:EncryptionMethod Algorithm="%s"/><enc:CipherData><enc:CipherReference URI="%s"/></enc:CipherData></enc:EncryptedData>`, esc(e.Algorithm), esc(e.URI))
 	}
 	sb.WriteString(`</encryption>`)
